@@ -227,8 +227,8 @@ PROPS = {
                 dict(driver='drv_threads', flavour='plain0', runner='helgrind', tiers=('thorough',), env=dict(VF_THREADS='4', VF_STEPS='60', VF_ROUNDS='3'))],
         rule='cases = rounds; one evaluation = one thread workload whose concurrent digest was compared with its single-threaded digest. Non-trivial iff at least 2 threads were inside library code at the same time during its round; distinct = distinct workload seeds.',
         assumptions=COMMON_ASSUME[1:] + ['g++ 12 ThreadSanitizer intercepts every synchronisation the harness uses (std::thread, atomics)'],
-        floors={'quick': {'distinct_nontrivial': 128, 'rounds_with_at_least_half_the_threads_overlapping': 16, 'feat:c19_focused_rounds': 6},
-                'thorough': dict(distinct_nontrivial=1500, rounds_with_at_least_half_the_threads_overlapping=100)},
+        floors={'quick': {'distinct_nontrivial': 64, 'rounds_with_overlapping_threads': 16, 'feat:c19_focused_rounds': 6},
+                'thorough': dict(distinct_nontrivial=1000, rounds_with_overlapping_threads=100)},
     ),
 
     'C20': dict(
